@@ -27,7 +27,16 @@ TRACE_CHUNK = 600
 ASSUMPTIONS = [
   'samples, increments and gauge values are integer-valued; reported totals and percentiles are compared after '
   'the monotone map x -> round(1000 x), so float noise of the interpolation never decides a verdict',
-  'all samples are younger than VarzAggregator.MAX_AGG_AGE (5 min): the expiry of stale reservoirs is not judged',
+  'time: the virtual gevent loop moves the clock; the real LowResolutionTime ticks once a second on the real timer '
+  'queue, so _SampleSet.last_update and the `now` of Aggregate are the code\'s own.  C18 says nothing about age: the '
+  'oracle knows no time.  An aggregate entry folded from no series (count 0: what Aggregate reports for a key whose '
+  'reservoirs are all older than MAX_AGG_AGE, with zeros as percentiles) is not judged by percentileBounds (there is '
+  'no retained sample among the contributing series); an entry with count >= 1 is judged against the retained samples '
+  'whatever their age; an implementation may keep or delete old reservoirs',
+  'where a sample landed is observed by reading the series of the recorded key in VARZ_DATA before and after the call '
+  '(retained samples, offered count); unreadable reservoirs are not judged (room = took = -1)',
+  'histories with thousands of sources are encoded with IncRun events (a run of increments in order, expanded exactly '
+  'by the spec) and aggregated with the service-level selectors only (the statement defines per-service sums)',
   'the reservoir capacity is set through VarzReceiver._MAX_PERCENTILE_SIZE (2, 3 or the default 1000) and '
   'random.random of scales.varz is scripted; "retained samples" are read from the reservoirs (.data) when '
   'available, otherwise every recorded sample of the source bounds the percentiles (weaker, never stricter)',
@@ -40,6 +49,10 @@ ASSUMPTIONS = [
 ]
 RULE = {'C18': 'systematic {same, fresh} object sequences x 6 metric kinds x source tuples x 3 recording styles, '
                'seeded random update/aggregate sequences, dispatcher end-to-end runs and TLC-simulated behaviours; '
+               'idle-window histories (clock steps below/at/above MAX_AGG_AGE x aggregation passes inside the window x '
+               'who resumes: the long-lived bound holder, holders of equal sources made before/after the window, unbound '
+               'and static forms), seeded random timed histories, socket-wrapper histories, and histories with '
+               '2300-6500 distinct sources on one counter/rate metric; '
                'non-trivial = at least one aggregate reported and some (metric, source tuple) recorded at least '
                'twice; distinct by canonical event list'}
 
@@ -61,20 +74,32 @@ def models(prop, tier):
          what='counterexample generator: identity keys make the aggregator sum a gauge over duplicates (C18.gauge)'),
     dict(module='Varz', cfg='Varz_noeq_pct.cfg', expect_violation='NoPctViolation', workers=2,
          what='counterexample generator: identity keys downsample every duplicate reservoir to nothing (C18.percentileBounds)'),
+    dict(module='Varz', cfg='Varz_orphan.cfg', expect_violation='NoSeriesViolation', workers=2,
+         what='counterexample generator: Aggregate deletes reservoirs older than MAX_AGG_AGE while a bound holder '
+              'remembers its reservoir: the holder resumes into a reservoir VARZ_DATA no longer shows (C18.oneSeries)'),
   ]
+  ilq = dict(module='Varz', cfg='Varz_ilq.cfg', coverage=True, may_be_unused=['ClockTick'],
+             what='counter+gauge+timer, 2 tuples, 3 updates landing between aggregator quanta')
   if tier == 'quick':
     return [
       dict(module='Varz', cfg='Varz_cg5.cfg', what='counter+gauge, 3 tuples, 5 updates, Source with __eq__'),
       dict(module='Varz', cfg='Varz_ct.cfg', what='rate+timer, 2 tuples, 5 updates, capacity 2, Source with __eq__'),
-      dict(module='Varz', cfg='Varz_ilq.cfg', coverage=True,
-           what='counter+gauge+timer, 2 tuples, 3 updates landing between aggregator quanta'),
+      ilq,
+      dict(module='Varz', cfg='Varz_ageq.cfg', coverage=True, may_be_unused=['DoInc', 'DoSet', 'AggStepNext', 'AggStepAbort'],
+           workers=8, what='timer, 2 tuples, 4 samples, clock steps of 1-2 units up to 3, MAX_AGG_AGE = 2 units: '
+                           'reservoirs that go stale, are left out by Aggregate and resume'),
     ] + noeq
   return [
     dict(module='Varz', cfg='Varz_cg.cfg', what='counter+gauge, 3 tuples, 6 updates', timeout=2400),
     dict(module='Varz', cfg='Varz_ct3.cfg', what='rate+timer, 3 tuples, 5 updates, capacity 2', timeout=2400),
     dict(module='Varz', cfg='Varz_gt.cfg', what='gauge+avgrate, 2 tuples, 5 updates, capacity 2', timeout=2400),
-    dict(module='Varz', cfg='Varz_ilq.cfg', coverage=True, what='3 metrics, 3 updates between aggregator quanta'),
+    ilq,
     dict(module='Varz', cfg='Varz_il.cfg', what='3 metrics, 2 tuples, 4 updates between aggregator quanta', timeout=2400),
+    dict(module='Varz', cfg='Varz_age.cfg', what='timer+counter, 2 tuples, 4 updates, clock up to 4 units, MAX_AGG_AGE = 2 units',
+         timeout=2400),
+    dict(module='Varz', cfg='Varz_expire.cfg', timeout=2400,
+         what='variant: Aggregate deletes stale reservoirs, every recording looks its series up (C18 holds: the oracle '
+              'does not require old samples to be kept)'),
     dict(module='Varz', cfg='Varz_noeq_sum.cfg', what='identity keys: counter/rate sums are still right (C18.sum holds)'),
     dict(module='Varz', cfg='Varz_noeq_bound.cfg', expect_violation='Bounded', workers=2,
          what='counterexample generator: identity keys, series not bounded by distinct sources'),
@@ -106,6 +131,8 @@ class _Rig(object):
     self.srcs = []         # src id - 1 -> int tuple
     self.fields = [{None: 0}, {None: 0}, {None: 0}, {None: 0}]   # real field value -> int
     self.objs = []         # keeps every Source alive (ids are never re-used)
+    self._src_ix = {}      # tuple -> src id
+    self._obj_ix = {}      # id(object) -> obj id (objects are kept alive, so id() is unique)
     self.ev = []
     self.raised = 0
     loop.run_until_idle()  # greenlets started by the imports (timer queue worker) reach their first wait
@@ -138,16 +165,18 @@ class _Rig(object):
             self.field_int(2, source.endpoint), self.field_int(3, source.client_id)]
 
   def src_id(self, t):
-    t = list(t)
-    if t not in self.srcs:
-      self.srcs.append(t)
-    return self.srcs.index(t) + 1
+    k = tuple(t)
+    if k not in self._src_ix:
+      self.srcs.append(list(k))
+      self._src_ix[k] = len(self.srcs)
+    return self._src_ix[k]
 
   def obj_id(self, source):
-    for i, o in enumerate(self.objs):
-      if o is source:
-        return i + 1, 0
+    i = self._obj_ix.get(id(source))
+    if i is not None and self.objs[i - 1] is source:
+      return i, 0
     self.objs.append(source)
+    self._obj_ix[id(source)] = len(self.objs)
     return len(self.objs), 1
 
   def make_source(self, t):
@@ -158,8 +187,50 @@ class _Rig(object):
       self.fields[pos][vals[pos]] = t[pos]
     return self.varz.Source(*vals)
 
+  # --- where a recording landed (observation only; the spec decides)
+  def series_state(self, name, source):
+    """The series VARZ_DATA shows for `source` under metric `name`, looked up with the recorded key
+    itself and without inserting anything: None = no such series, else (offered count or None,
+    retained samples, capacity); 'opaque' if it is not a readable reservoir."""
+    d = self.VR.VARZ_DATA
+    ser = d.get(name)
+    if ser is None or source not in ser:
+      return None
+    r = ser[source]
+    try:
+      data = [x for x in r.data]
+    except Exception:
+      return 'opaque'
+    cap = getattr(r.data, 'maxlen', None) or getattr(r, 'max_size', None) or self.VR._MAX_PERCENTILE_SIZE
+    return (getattr(r, 'i', None), data, cap)
+
+  def landed(self, pre, name, source):
+    """(room, took) of a sample just recorded; pre = series_state before the call."""
+    post = self.series_state(name, source)
+    if pre == 'opaque' or post == 'opaque':
+      return -1, -1
+    room = 1 if (pre is None or len(pre[1]) < pre[2]) else 0
+    if post is None:
+      return room, 0
+    return room, (1 if (pre is None or post[:2] != pre[:2]) else 0)
+
+  def tick(self, dt):
+    """Let dt seconds of virtual time pass: the real LowResolutionTime ticks once a second on the
+    real timer queue (that is where _SampleSet.last_update and Aggregate take `now` from)."""
+    t0 = self.loop.now()
+    self.loop.run_for(dt)
+    if abs(self.loop.now() - t0 - dt) > 1e-6:
+      raise RuntimeError('virtual clock did not advance by %r' % dt)
+    self.ev.append({'e': 'Tick', 'dt': int(dt)})
+
+  def low_res_now(self):
+    try:
+      return float(self.varz.LOW_RESOLUTION_TIME_SOURCE.now)
+    except Exception:
+      return None
+
   # --- events
-  def log_update(self, e, name, source, val, where=None):
+  def log_update(self, e, name, source, val, where=None, pre='unobserved'):
     oid, fresh = self.obj_id(source)
     rec = {'e': e, 'metric': self.metric_id(name), 'src': self.src_id(self.tuple_of(source)),
            'fresh': fresh, 'obj': oid}
@@ -167,7 +238,26 @@ class _Rig(object):
     if abs(val - iv) > 1e-6:
       raise RuntimeError('non-integer value %r recorded for %s' % (val, name))
     rec['amt' if e == 'Inc' else 'v'] = iv
+    if e == 'Sample':
+      rec['room'], rec['took'] = (-1, -1) if pre == 'unobserved' else self.landed(pre, name, source)
     (self.ev if where is None else where).append(rec)
+
+  def compact(self, run=200):
+    """Re-encode maximal runs of consecutive Inc events of one metric as IncRun events (same meaning:
+    the increments of the run in order), so that histories with thousands of sources stay small."""
+    out, cur = [], None
+    for e in self.ev:
+      if e['e'] == 'Inc':
+        if cur is not None and cur['metric'] == e['metric'] and len(cur['srcs']) < run:
+          cur['srcs'].append(e['src'])
+          cur['amts'].append(e['amt'])
+          continue
+        cur = {'e': 'IncRun', 'metric': e['metric'], 'srcs': [e['src']], 'amts': [e['amt']]}
+        out.append(cur)
+      else:
+        cur = None
+        out.append(e)
+    self.ev[:] = out
 
   def selector(self, sel):
     if sel == 'default':
@@ -363,14 +453,171 @@ def _gen_e2e(rng):
           'sels': rng.sample(SELS, 2) + ['tuple', 'default']}
 
 
+# ---- time as a scenario dimension ---------------------------------------------------------------
+# VarzAggregator.MAX_AGG_AGE is 300 s of the low-resolution clock; steps around it and well below / above it
+TICKS = [1, 7, 59, 150, 299, 300, 301, 450, 900]
+
+
+def _gen_timed(rng):
+  """Like _gen_api, but the clock moves between recordings (seconds ... more than MAX_AGG_AGE), aggregation
+  passes fall inside the idle windows, and long-lived bound holders ('same' + 'inst') go idle and resume
+  next to fresh holders of equal sources and the unbound / static recording forms."""
+  kinds = [rng.choice(['timer', 'avgrate', 'timer', 'counter', 'gauge', 'rate', 'aggtimer']) for _ in range(rng.randint(1, 3))]
+  if not any(k in ('timer', 'avgrate') for k in kinds):
+    kinds[0] = rng.choice(['timer', 'avgrate'])
+  nsrc = rng.randint(2, 3)
+  srcs = rng.sample(TUPLE_POOL, nsrc)
+  cap = rng.choice([2, 3, 1000, 1000])
+  ops = []
+
+  def rec():
+    m = rng.randrange(len(kinds))
+    s = 0 if rng.random() < 0.6 else rng.randrange(nsrc)
+    obj, style = rng.choice([('same', 'inst'), ('same', 'inst'), ('fresh', 'inst'), ('fresh', 'cls'), ('same', 'cls'),
+                             ('fresh', 'recv'), ('same', 'recv'), ('reuse', 'inst')])
+    k = kinds[m]
+    if k in ('counter', 'rate', 'aggtimer'):
+      return ['inc', m, s, obj, style, rng.choice([1, 2, 3, 5])]
+    if k == 'gauge':
+      return ['set', m, s, obj, style, rng.randint(1, 9)]
+    if k == 'timer' and rng.random() < 0.2:
+      return ['measure', m, s, obj, style, rng.randint(1, 4)]
+    return ['sample', m, s, obj, style, rng.randint(1, 9), rng.choice([0.05, 0.5, 0.95])]
+
+  for _ in range(rng.randint(2, 4)):       # phases: activity, then an idle window with or without passes in it
+    for _ in range(rng.randint(1, 4)):
+      ops.append(rec())
+    if rng.random() < 0.4:
+      ops.append(['agg', rng.choice(SELS)])
+    for _ in range(rng.randint(1, 3)):
+      ops.append(['tick', rng.choice(TICKS)])
+      if rng.random() < 0.55:
+        ops.append(['agg', rng.choice(SELS)])
+  for _ in range(rng.randint(1, 4)):
+    ops.append(rec())
+  ops += [['agg', 'tuple'], ['agg', rng.choice(SELS)]]
+  return {'mode': 'api', 'kinds': kinds, 'srcs': srcs, 'cap': cap, 'ops': ops}
+
+
+def _idle_systematic(tier):
+  """One source with a long-lived bound holder H that records, goes idle and resumes.  Enumerated: how
+  long the idle window is (below / at / above MAX_AGG_AGE, in one or two steps), whether aggregation passes
+  run inside it, and who records after it in which order (H itself, a fresh holder of an equal source made
+  after the window, the unbound and the static form, with the same or a fresh Source object)."""
+  out = []
+  resumes = [
+    [('same', 'inst'), ('same', 'inst')],
+    [('same', 'inst'), ('fresh', 'inst'), ('same', 'inst')],
+    [('fresh', 'inst'), ('same', 'inst')],
+    [('fresh', 'cls'), ('same', 'inst'), ('fresh', 'recv')],
+    [('same', 'recv'), ('same', 'inst')],
+    [('fresh', 'inst'), ('fresh', 'recv')],
+    [('same', 'cls'), ('fresh', 'cls')],
+    [('reuse', 'inst'), ('same', 'inst'), ('reuse', 'inst')],     # a second holder made before the window resumes too
+  ]
+  idles = [[299], [300], [301], [150, 151], [301, 30], [1000], [3, 60]]
+  n = 0
+  for k in ('timer', 'avgrate', 'counter', 'gauge', 'rate'):
+    pct = k in ('timer', 'avgrate')
+    for idle in (idles if pct else [[301], [1000]]):
+      for aggin in ((0, 1, 2) if pct else (1,)):
+        for res in resumes:
+          for cap in ((2, 1000) if (pct and tier != 'quick') else (2 if n % 3 == 0 else 1000,)):
+            n += 1
+
+            def op(o, style, v, si=0):
+              if k == 'gauge':
+                return ['set', 0, si, o, style, v]
+              if pct:
+                return ['sample', 0, si, o, style, v, 0.05]
+              return ['inc', 0, si, o, style, v]
+            # H records; so does the holder of a second, distinct source (it stays idle for good)
+            ops = [op('same', 'inst', 3), op('same', 'inst', 5), op('same', 'inst', 6, 1)]
+            if res[0][0] == 'reuse':
+              ops.append(op('fresh', 'inst', 4))     # the second holder of an equal source, before the window
+            if aggin:
+              ops.append(['agg', 'tuple'])
+            for j, d in enumerate(idle):
+              ops.append(['tick', d])
+              if aggin == 1 or (aggin == 2 and j == len(idle) - 1):
+                ops.append(['agg', 'default'])
+            for j, (o, style) in enumerate(res):
+              ops.append(op(o, style, 7 + j))
+            ops += [['agg', 'tuple'], ['agg', 'default']]
+            out.append({'mode': 'api', 'kinds': [k], 'srcs': [TUPLE_POOL[n % 4], TUPLE_POOL[(n + 1) % 4]], 'cap': cap, 'ops': ops})
+  return out
+
+
+def _gen_sock(rng):
+  """A real long-lived holder: scales.varz.VarzSocketWrapper keeps a bound Varz object (open_latency timer, byte
+  rates, connection counters) for its (service, host:port) source.  Connections open, carry traffic, go idle
+  for minutes, are polled by the aggregator, close and re-open; a second wrapper for the same endpoint (a
+  fresh holder of an equal source) appears before or after the idle window."""
+  ops = [['new', 0, 1]]
+  if rng.random() < 0.5:
+    ops.append(['new', 1, rng.choice([1, 1, 2])])
+  n = 1 if len(ops) == 1 else 2
+  for _ in range(rng.randint(2, 4)):
+    for _ in range(rng.randint(1, 4)):
+      w = rng.randrange(n)
+      r = rng.random()
+      if r < 0.4:
+        ops.append(['open', w, rng.randint(1, 4)])
+      elif r < 0.55:
+        ops.append(['close', w])
+      elif r < 0.8:
+        ops.append([rng.choice(['read', 'write']), w, rng.randint(1, 9)])
+      elif n < 3:
+        ops.append(['new', n, rng.choice([1, 1, 2])])
+        n += 1
+    for _ in range(rng.randint(1, 2)):
+      ops.append(['tick', rng.choice([30, 150, 299, 301, 600])])
+      if rng.random() < 0.6:
+        ops.append(['agg', rng.choice(['default', 'tuple', 'endpoint'])])
+  for w in range(n):
+    ops.append(['open', w, rng.randint(1, 3)])
+  ops += [['agg', 'tuple'], ['agg', 'default']]
+  return {'mode': 'sock', 'cap': rng.choice([2, 3, 1000]), 'ops': ops}
+
+
+# ---- scale as a scenario dimension -----------------------------------------------------------------
+def _scale_cases(tier, rng):
+  """Thousands of distinct sources on one counter / rate metric (one service's endpoints, recorded through
+  fresh equal Source objects as the dispatcher does), bystander services on the same metric, service-level
+  aggregates at checkpoints.  Judged by C18.sum exactly (every increment is in the trace)."""
+  def case(kind, n, style, marks, seed):
+    return {'mode': 'scale', 'kind': kind, 'n': n, 'style': style, 'marks': marks, 'seed': seed}
+  out = [
+    case('counter', 2500, 'cls', [999, 1001, 1999, 2003, 2500], rng.randrange(1 << 20)),
+    case('rate', 2300, 'recv', [1500, 2100, 2300], rng.randrange(1 << 20)),
+  ]
+  if tier != 'quick':
+    out += [
+      case('counter', 4200, 'inst', [1000, 2000, 2001, 2002, 3000, 3001, 4200], rng.randrange(1 << 20)),
+      case('counter', 3100, 'recv', [10, 500, 999, 1000, 1001, 1500, 1999, 2000, 2001, 2002, 2500, 3100], rng.randrange(1 << 20)),
+      case('rate', 2600, 'cls', [2600], rng.randrange(1 << 20)),
+      case('aggtimer', 2200, 'cls', [1100, 2200], rng.randrange(1 << 20)),
+      case('counter', 1200, 'cls', [600, 1200], rng.randrange(1 << 20)),
+      case('counter', 6500, 'cls', [3000, 6500], rng.randrange(1 << 20)),
+    ]
+  return out
+
+
 def cases(prop, tier, seed):
   rng = random.Random(1000003 * int(seed) + 18)
   out = _systematic() + _interleaved()
-  n_api, n_e2e = (900, 250) if tier == 'quick' else (8000, 1500)
+  n_api, n_e2e, n_timed, n_sock = (700, 200, 300, 120) if tier == 'quick' else (8000, 1500, 4000, 1500)
   for _ in range(n_api):
     out.append(_gen_api(rng))
   for _ in range(n_e2e):
     out.append(_gen_e2e(rng))
+  rng2 = random.Random(1000003 * int(seed) + 1818)
+  out += _idle_systematic(tier)
+  for _ in range(n_timed):
+    out.append(_gen_timed(rng2))
+  for _ in range(n_sock):
+    out.append(_gen_sock(rng2))
+  out += _scale_cases(tier, rng2)
   return out
 
 
@@ -412,6 +659,9 @@ def _run_api(script):
     if k == 'agg':
       rig.aggregate(op[1])
       continue
+    if k == 'tick':
+      rig.tick(op[1])
+      continue
     m, si, omode, style = op[1], op[2], op[3], op[4]
     name = names[m]
     attr = 'm%d' % m
@@ -428,6 +678,7 @@ def _run_api(script):
     if k == 'measure':
       d = op[5]
       t0 = loop.now()
+      pre = rig.series_state(name, src)
       if style == 'inst':
         with metric_inst().Measure():
           loop.run_for(d)
@@ -436,7 +687,7 @@ def _run_api(script):
           loop.run_for(d)
       if loop.now() - t0 != d:
         raise RuntimeError('virtual clock did not advance by %r' % d)
-      rig.log_update(evname, name, src, d)
+      rig.log_update(evname, name, src, d, pre=pre)
       continue
     if k == 'inc1':
       if style == 'inst':
@@ -448,6 +699,7 @@ def _run_api(script):
     val = op[5]
     if k == 'sample':
       rig.rand.append(op[6])
+    pre = rig.series_state(name, src)
     if style == 'recv':
       if k == 'inc':
         VR.IncrementVarz(src, name, val)
@@ -459,7 +711,7 @@ def _run_api(script):
       getattr(V, attr)(src, val)
     else:
       metric_inst()(val)
-    rig.log_update(evname, name, src, val)
+    rig.log_update(evname, name, src, val, pre=pre)
     del rig.rand[:]
   return {'cfg': rig.cfg(), 'ev': rig.ev, 'meta': {'errors': [str(e[1:3]) for e in loop.errors][:3],
                                                     'aggregate_raised': rig.raised}}
@@ -485,8 +737,9 @@ def _run_e2e(script):
     rig.log_update('Set', metric, source, value)
 
   def rec(cls, source, metric, value):
+    pre = rig.series_state(metric, source)
     orig_rec(cls, source, metric, value)
-    rig.log_update('Sample', metric, source, value)
+    rig.log_update('Sample', metric, source, value, pre=pre)
   VR.IncrementVarz = staticmethod(inc)
   VR.SetVarz = staticmethod(set_)
   VR.RecordPercentileSample = classmethod(rec)
@@ -557,6 +810,163 @@ def _run_e2e(script):
                                                     'aggregate_raised': rig.raised}}
 
 
+def _run_scale(script):
+  """Thousands of distinct sources on one metric.  Endpoint i of the big service (service 1) gets 1 + i % 3
+  increments of 1 + (i * 7 + seed) % 5 each, every one through a freshly built equal Source (or, style
+  'inst', through a holder per endpoint); every 97th endpoint is recorded once more much later; the
+  bystander services 2 and 3 (one of them recorded through the Source that has only service and client id)
+  share the metric.  Aggregates by the two service-level selectors at the marks and at the end."""
+  loop = common.boot()
+  from scales import varz
+  rig = _Rig(loop, 0)
+  VR = rig.VR
+  kind = script['kind']
+  cls_of = {'counter': varz.Counter, 'rate': varz.Rate, 'aggtimer': varz.AggregateTimer}
+
+  class V(varz.VarzBase):
+    _VARZ_BASE_NAME = 'verif.s'
+    _VARZ = {'big': cls_of[kind], 'side': varz.Counter}
+  big, side = 'verif.s.big', 'verif.s.side'
+  rig.metric_id(big)
+  rig.metric_id(side)
+  rnd = random.Random(script['seed'])
+  style = script['style']
+  seed = script['seed']
+
+  def record(t, amt, name=big, attr='big'):
+    src = rig.make_source(t)
+    if style == 'recv':
+      VR.IncrementVarz(src, name, amt)
+    elif style == 'cls':
+      getattr(V, attr)(src, amt)
+    else:
+      getattr(V(src), attr)(amt)
+    rig.log_update('Inc', name, src, amt)
+
+  def aggs():
+    rig.aggregate('default')
+    if rnd.random() < 0.5:
+      rig.aggregate('service')
+
+  # bystanders first: they are the oldest series of the metric
+  for _ in range(7):
+    record([1, 2, 1, 0], 1)
+  record([0, 3, 0, 1], 4)          # a source that is nothing but (service, client id)
+  record([2, 3, 5, 1], 2)
+  record([1, 2, 1, 0], 1, side, 'side')
+  marks = set(script['marks'])
+  later = []
+  for i in range(1, script['n'] + 1):
+    amt = 1 + (i * 7 + seed) % 5
+    for _ in range(1 + i % 3):
+      record([1 + i % 2, 1, i, 0], amt)
+    if i % 97 == 0:
+      later.append(i)
+    if len(later) > 3 and i % 97 == 50:
+      j = later.pop(0)
+      record([1 + j % 2, 1, j, 0], 1)
+    if i % 500 == 0:
+      record([1, 2, 1, 0], 1)      # the bystander stays in use
+      record([0, 3, 0, 1], 1)
+    if i in marks:
+      aggs()
+  rig.aggregate('default')
+  rig.aggregate('service')
+  rig.compact()
+  return {'cfg': rig.cfg(), 'ev': rig.ev, 'meta': {'errors': [str(e[1:3]) for e in loop.errors][:3],
+                                                    'aggregate_raised': rig.raised}}
+
+
+def _run_sock(script):
+  """scales.varz.VarzSocketWrapper over a stand-in socket.  Recordings are observed where the wrapper makes
+  them: at the call of a metric object (VarzMetric.__call__), whatever path they take from there."""
+  loop = common.boot()
+  import gevent
+  from scales import varz
+  rig = _Rig(loop, script['cap'])
+  orig_call = varz.VarzMetric.__call__
+  depth = [0]
+
+  def call(self_, *args):
+    if depth[0]:
+      return orig_call(self_, *args)
+    src = getattr(self_, '_source', None)
+    name = self_._metric
+    if src is not None:
+      val = args[0] if args else 1
+    else:
+      src, val = args[0], (args[1] if len(args) > 1 else 1)
+    kind = rig.kind_of_type(type(self_).VARZ_TYPE)
+    evname = 'Inc' if kind in ('counter', 'rate', 'aggtimer') else ('Set' if kind == 'gauge' else 'Sample')
+    pre = rig.series_state(name, src)
+    depth[0] += 1
+    try:
+      orig_call(self_, *args)
+    finally:
+      depth[0] -= 1
+    rig.log_update(evname, name, src, val, pre=pre)
+  varz.VarzMetric.__call__ = call
+
+  class Handle(object):
+    def sendall(self, buff):
+      pass
+
+    def setsockopt(self, *a):
+      pass
+
+  class Sock(object):
+    def __init__(self, port):
+      self.host, self.port = 'h', port
+      self.handle = None
+      self.delay = 0
+
+    def isOpen(self):
+      return self.handle is not None
+
+    def open(self):
+      gevent.sleep(self.delay)
+      self.handle = Handle()
+
+    def close(self):
+      self.handle = None
+
+    def read(self, sz):
+      return b'x' * sz
+
+  wrappers = {}
+
+  for op in script['ops']:
+    k = op[0]
+    if k == 'agg':
+      rig.aggregate(op[1])
+    elif k == 'tick':
+      rig.tick(op[1])
+    elif k == 'new':
+      wrappers[op[1]] = (varz.VarzSocketWrapper(Sock(80 + op[2]), 'svc1'), None)
+    else:
+      w = wrappers[op[1]][0]
+      if k == 'open':
+        if w.isOpen():
+          w.close()               # re-connect
+        w._socket.delay = op[2]
+        g = gevent.spawn(w.open)
+        loop.run_for(op[2])
+        loop.run_until_idle()
+        if not g.ready() or not g.successful():
+          raise RuntimeError('open did not finish: %r' % (g.exception,))
+        rig.ev.append({'e': 'Tick', 'dt': int(op[2])})
+      elif k == 'close':
+        w.close()
+      elif k == 'read':
+        w.read(op[2])
+      elif k == 'write':
+        if w.isOpen():
+          w.write(b'y' * op[2])
+  varz.VarzMetric.__call__ = orig_call
+  return {'cfg': rig.cfg(), 'ev': rig.ev, 'meta': {'errors': [str(e[1:3]) for e in loop.errors][:3],
+                                                    'aggregate_raised': rig.raised}}
+
+
 def run_case(script):
   mode = script.get('mode')
   if 'behaviour' in script:
@@ -564,6 +974,10 @@ def run_case(script):
     return {'cfg': o['cfg'], 'ev': o['ev']}
   if mode == 'e2e':
     return _run_e2e(script)
+  if mode == 'scale':
+    return _run_scale(script)
+  if mode == 'sock':
+    return _run_sock(script)
   return _run_api(script)
 
 
@@ -587,6 +1001,9 @@ def nontrivial(prop, t):
   for e in ev:
     if e['e'] in ('Inc', 'Set', 'Sample'):
       cnt[(e['metric'], e['src'])] = cnt.get((e['metric'], e['src']), 0) + 1
+    elif e['e'] == 'IncRun':
+      for s_ in e['srcs']:
+        cnt[(e['metric'], s_)] = cnt.get((e['metric'], s_), 0) + 1
   if not cnt or max(cnt.values()) < 2:
     return None
   return common.canon([t['cfg'], ev])
@@ -673,6 +1090,9 @@ def _replay_one(script):
       return inner(s)
     return ks
 
+  unit = script.get('unit')         # seconds per clock unit of the model (age behaviours), else None
+  base = rig.low_res_now()
+
   def project():
     d = VR.VARZ_DATA
     mk = [names.index(n) + 1 for n in d.keys() if n in names]
@@ -682,16 +1102,21 @@ def _replay_one(script):
       for s, v in (d[nm].items() if nm in d else []):
         t = rig.tuple_of(s)
         if k in ('timer', 'avgrate'):
-          ents.append((tuple(t), 0, tuple(int(x) for x in v.data), int(v.i)))
+          lu = 0
+          if unit and base is not None and hasattr(v, 'last_update'):
+            q = (float(v.last_update) - base) / unit
+            lu = int(round(q)) if abs(q - round(q)) < 1e-6 else q
+          ents.append((tuple(t), 0, tuple(int(x) for x in v.data), int(v.i), lu))
         else:
-          ents.append((tuple(t), int(v), (), 0))
+          ents.append((tuple(t), int(v), (), 0, 0))
       vd.append(sorted(ents))
     return {'mkeys': mk, 'vdata': vd}
 
   def spec_project(st):
     vd = []
     for ents in st['vdata']:
-      vd.append(sorted((tuple(e['k']['t']), e['v']['n'], tuple(e['v']['data']), e['v']['i']) for e in ents))
+      vd.append(sorted((tuple(e['k']['t']), e['v']['n'], tuple(e['v']['data']), e['v']['i'],
+                        e['v'].get('lu', 0) if unit else 0) for e in ents))
     return {'mkeys': list(st['mkeys']), 'vdata': vd}
 
   def out_project(sel, out):
@@ -742,9 +1167,15 @@ def _replay_one(script):
         rig.log_update('Set', nm, src, val)
       else:
         rig.rand.append(0.05 if params[4] else 0.5)
+        pre = rig.series_state(nm, src)
         VR.RecordPercentileSample(src, nm, val)
         del rig.rand[:]
-        rig.log_update('Sample', nm, src, val)
+        rig.log_update('Sample', nm, src, val, pre=pre)
+    elif name == 'ClockTick':
+      if not unit:
+        drift = drift or {'step': steps, 'action': [name, params], 'why': 'clock step in a behaviour without a time unit'}
+        break
+      rig.tick(unit * params[0])
     elif name == 'AggBegin':
       sel = params[0]
       box = []
@@ -817,6 +1248,17 @@ def replay_behaviours(prop, tier, seed):
   keep = ('vdata', 'mkeys', 'ret', 'akinds')
   scripts = [{'behaviour': [[list(a), dict((k, s[k]) for k in keep if k in s)] for a, s in b], 'cap': 2}
              for b in behs]
+  aged = 0
+  if eq:
+    # behaviours with the clock: one model unit = MAX_AGG_AGE / MaxAge = 150 s of the real low-resolution clock
+    r2, behs2 = tlc.simulate_behaviours('Varz', 'Varz_sim_age.cfg', num=(100 if tier == 'quick' else 1200), depth=24,
+                                        seed=int(seed) + 7, timeout=900)
+    if not behs2:
+      raise RuntimeError('no behaviours from TLC simulate (age):\n' + r2.stdout[-2000:])
+    aged = len(behs2)
+    behs = behs + behs2
+    scripts += [{'behaviour': [[list(a), dict((k, s[k]) for k in keep if k in s)] for a, s in b], 'cap': 2, 'unit': 150}
+                for b in behs2]
   res = common.run_forked(_replay_one, scripts)
   errs = [x['err'] for x in res if 'err' in x]
   if errs:
@@ -829,7 +1271,7 @@ def replay_behaviours(prop, tier, seed):
     if o['drift']:
       drift.append(o['drift'])
     traces.append({'cfg': o['cfg'], 'ev': o['ev'], 'script': s})
-  return {'summary': {'behaviours_replayed': len(behs), 'steps_compared': steps, 'drift': len(drift),
+  return {'summary': {'behaviours_replayed': len(behs), 'with_clock_steps': aged, 'steps_compared': steps, 'drift': len(drift),
                       'model_variant': 'SourceEq=%s (probed from the real Source class)' % ('TRUE' if eq else 'FALSE'),
                       'aggregates_aborted_by_dict_resize': aborted},
           'traces': traces, 'drift': drift}
@@ -842,5 +1284,31 @@ def extra_coverage(prop, tier, traces):
       kinds[k] = kinds.get(k, 0) + 1
   e2e = sum(1 for t in traces if (t.get('script') or {}).get('mode') == 'e2e')
   raised = sum((t.get('meta') or {}).get('aggregate_raised', 0) for t in traces)
+  idle = resumed = stale = 0
+  big = []
+  for t in traces:
+    ev = t['ev']
+    acc, seen_agg, window = 0, False, False
+    for e in ev:
+      if e['e'] == 'Tick':
+        acc += e['dt']
+      elif e['e'] in ('Agg', 'AggDone'):
+        if acc >= 300:
+          seen_agg = True
+        if e['e'] == 'Agg' and e['cnt'] == 0 and e['pcts']:
+          stale += 1
+      elif e['e'] == 'Sample':
+        if acc >= 300:
+          window = True
+          if seen_agg and not e['fresh']:
+            resumed += 1
+        acc, seen_agg = 0, False
+    idle += 1 if window else 0
+    if len(t['cfg']['srcs']) >= 1000:
+      big.append(len(t['cfg']['srcs']))
   return {'metric_kinds_exercised': kinds, 'dispatcher_end_to_end_runs': e2e,
-          'aggregate_calls_that_raised': raised}
+          'aggregate_calls_that_raised': raised,
+          'traces_with_a_sample_after_an_idle_window_of_MAX_AGG_AGE_or_more': idle,
+          'samples_by_a_reused_object_after_such_a_window_with_an_aggregation_pass_inside': resumed,
+          'aggregate_entries_folded_from_no_series_(all_reservoirs_stale)': stale,
+          'distinct_sources_in_the_large_histories': sorted(big)}
